@@ -231,8 +231,9 @@ def faultObs (ws : List String) : String :=
   -- paused and is in the rotation after resume
   let sigs : Option Bool := match kv ws "signals" with | none => some false | some "1" => some true | _ => none
   let prep : Option Bool := match kv ws "pausedrep" with | none => some false | some "1" => some true | _ => none
-  let sysOk := match kv ws "sys" with | none => true | some v => v == "1"
+  let sysOk := (match kv ws "sys" with | none => true | some v => v == "1") && (match kv ws "facfail" with | none => true | some v => v == "1")
   if !sysOk then "bad-op" else
+  let ff := kv ws "facfail" == some "1"
   match sigs, prep with
   | none, _ | _, none => "bad-op"
   | some _, some pp =>
@@ -242,6 +243,11 @@ def faultObs (ws : List String) : String :=
   match gapOk, withStop, faults, limit, workers, pair, dropsrv with
   | true, some st, some fl, some lim, some wk, some pr, some ds =>
     let exact := lim.isNone && wk == 2
+    if ff && (!exact || kl != 0 || fl != 1 || st || pr || ds || bs || hd || sa || pp) then "bad-op" else
+    if ff then
+      -- the first restart attempt fails (`ServerCmd.serveFailing … 0`): logged, the loop goes on; the next fault is replaced
+      let run := ServerCmd.serveFailing ServerCmd.srcWakeFirst 2 0 [.faulted 0, .faulted 1]
+      s!"before=12 killed=- restart-failed={bit (run.log.contains (.restartFailed 0))} server-running={bit (!run.returned && !run.panicked)} killed2=- replaced2={bit (run.log.contains (.restartWorker 1))} later2-all-served=1" else
     if pp && (wk != 2 || lim != some 1 || kl != 0 || fl != 1 || st || pr || ds || bs || hd || sa) then "bad-op" else
     if pp then
       let run := ServerCmd.serve ServerCmd.srcWakeFirst 2 [.faulted 0, .pause, .resume]
